@@ -71,19 +71,28 @@ var _ time.Time // lemmas below name package time
 
 // ---- server cookies: b is arbitrary (it comes off the wire before any authentication) ----
 
+// Wire format of both cookie kinds: three TLVs (type(2) length(2) value), the first with a 2-byte value, the
+// other two with byte-string values: [t0 2 v0] [t1 l1 x...] [t2 l2 y...]. n is len(b) (the decoders shadow len).
+//@ pred w16(b, p) = (int(b[p])*256 + int(b[(p)+1]))
+//@ pred wire3(b, n, t0, t1, t2) = (n >= 14 && w16(b, 0) == t0 && w16(b, 2) == 2 && w16(b, 6) == t1 && 14+w16(b, 8) <= n && w16(b, 10+w16(b, 8)) == t2 && n == 14+w16(b, 8)+w16(b, 12+w16(b, 8)))
+
 //@ func (*ServerCookie).Decode
 //@   requires c != nil
 //@   entry n := len(b)
 //@   modifies *c
 //@   loop 0 invariant 0 <= pos
+//@   loop 0 invariant wire3(b, n, 257, 513, 769) ==> (pos == 0 && !algo && !s2c && !c2s) || (algo && int(c.Algo) == w16(b, 4) && ((pos == 6 && !s2c && !c2s) || (s2c && sameslice(c.S2C, b[10:10+w16(b, 8)]) && ((pos == 10+w16(b, 8) && !c2s) || (pos == n && c2s && sameslice(c.C2S, b[14+w16(b, 8):n]))))))
 //@   loop 0 decreases n-pos
+//@   ensures decoded: wire3(b, n, 257, 513, 769) ==> result == nil && int(c.Algo) == w16(b, 4) && sameslice(c.S2C, b[10:10+w16(b, 8)]) && sameslice(c.C2S, b[14+w16(b, 8):n])
 
 //@ func (*EncryptedServerCookie).Decode
 //@   requires c != nil
 //@   entry n := len(b)
 //@   modifies *c
 //@   loop 0 invariant 0 <= pos
+//@   loop 0 invariant wire3(b, n, 1025, 1281, 1537) ==> (pos == 0 && !id && !nonce && !ciphertext) || (id && int(c.ID) == w16(b, 4) && ((pos == 6 && !nonce && !ciphertext) || (nonce && sameslice(c.Nonce, b[10:10+w16(b, 8)]) && ((pos == 10+w16(b, 8) && !ciphertext) || (pos == n && ciphertext && sameslice(c.Ciphertext, b[14+w16(b, 8):n]))))))
 //@   loop 0 decreases n-pos
+//@   ensures decoded: wire3(b, n, 1025, 1281, 1537) ==> result == nil && int(c.ID) == w16(b, 4) && sameslice(c.Nonce, b[10:10+w16(b, 8)]) && sameslice(c.Ciphertext, b[14+w16(b, 8):n])
 
 //@ func (*EncryptedServerCookie).Decrypt
 //@   requires c != nil
@@ -92,12 +101,30 @@ var _ time.Time // lemmas below name package time
 //@ func (*ServerCookie).Encode
 //@   requires c != nil && len(c.S2C) <= 65535 && len(c.C2S) <= 65535
 //@   allocates
-//@   ensures length: len(result) == 14+len(c.S2C)+len(c.C2S)
+//@   ensures length: len(result) == 14+len(c.S2C)+len(c.C2S) && fresh(result)
+//@   ensures wire: wire3(result, len(result), 257, 513, 769) && w16(result, 4) == int(c.Algo) && w16(result, 8) == len(c.S2C) && w16(result, 12+len(c.S2C)) == len(c.C2S)
+//@   ensures values: forall(q, 0, len(c.S2C), result[10+q] == c.S2C[q]) && forall(q, 0, len(c.C2S), result[14+len(c.S2C)+q] == c.C2S[q])
 
 //@ func (*EncryptedServerCookie).Encode
 //@   requires c != nil && len(c.Nonce) <= 65535 && len(c.Ciphertext) <= 65535
 //@   allocates
-//@   ensures length: len(result) == 14+len(c.Nonce)+len(c.Ciphertext)
+//@   ensures length: len(result) == 14+len(c.Nonce)+len(c.Ciphertext) && fresh(result)
+//@   ensures wire: wire3(result, len(result), 1025, 1281, 1537) && w16(result, 4) == int(c.ID) && w16(result, 8) == len(c.Nonce) && w16(result, 12+len(c.Nonce)) == len(c.Ciphertext)
+//@   ensures values: forall(q, 0, len(c.Nonce), result[10+q] == c.Nonce[q]) && forall(q, 0, len(c.Ciphertext), result[14+len(c.Nonce)+q] == c.Ciphertext[q])
+
+// Round trips through the real encoders and decoders, into a destination with arbitrary previous contents, for
+// values of arbitrary (also unequal) lengths.
+//@ func verifServerCookieRoundTrip
+//@   requires c != nil && q != nil && c != q && len(c.S2C) <= 65535 && len(c.C2S) <= 65535
+//@   modifies *q
+//@   allocates
+//@   ensures roundtrip: result == nil && q.Algo == c.Algo && len(q.S2C) == len(c.S2C) && len(q.C2S) == len(c.C2S) && forall(i, 0, len(c.S2C), q.S2C[i] == c.S2C[i]) && forall(i, 0, len(c.C2S), q.C2S[i] == c.C2S[i])
+
+//@ func verifEncryptedCookieRoundTrip
+//@   requires c != nil && q != nil && c != q && len(c.Nonce) <= 65535 && len(c.Ciphertext) <= 65535
+//@   modifies *q
+//@   allocates
+//@   ensures roundtrip: result == nil && q.ID == c.ID && len(q.Nonce) == len(c.Nonce) && len(q.Ciphertext) == len(c.Ciphertext) && forall(i, 0, len(c.Nonce), q.Nonce[i] == c.Nonce[i]) && forall(i, 0, len(c.Ciphertext), q.Ciphertext[i] == c.Ciphertext[i])
 
 //@ func (*ServerCookie).EncryptWithNonce
 //@   requires c != nil && len(c.S2C) <= 65535 && len(c.C2S) <= 65535
@@ -117,3 +144,13 @@ var _ time.Time // lemmas below name package time
 // VerifPool is a ghost accessor (compiled only with the tag "verif"): it lets contracts in other packages
 // name the client's cookie pool, which is an unexported field.
 func (f *Fetcher) VerifPool() *[][]byte { return &f.data.Cookie }
+
+func verifServerCookieRoundTrip(c *ServerCookie, q *ServerCookie) error {
+	b := c.Encode()
+	return q.Decode(b)
+}
+
+func verifEncryptedCookieRoundTrip(c *EncryptedServerCookie, q *EncryptedServerCookie) error {
+	b := c.Encode()
+	return q.Decode(b)
+}
